@@ -69,6 +69,7 @@ fn main() {
         "C10" => pverif::c10::run(tier, seed, replay),
         "C11" => pverif::c11::run(tier, seed, replay),
         "C14" => pverif::c14::run(tier, seed, replay),
+        "C20" => pverif::c20::run(tier, seed, replay),
         "C19" => pverif::c19::run(tier, seed, replay),
         _ => {
             eprintln!("unknown property {prop}");
